@@ -13,6 +13,7 @@ import (
 // C10Case: offsetting of one open polyline.
 type C10Case struct {
 	Line       Path        `json:"line"`
+	Before     Paths       `json:"before,omitempty"` // companion polylines given before the line, far away from it
 	Delta      float64     `json:"delta"`
 	Join       c2.JoinType `json:"join"`
 	End        c2.EndType  `json:"end"`
@@ -38,6 +39,17 @@ func drawC10(t *rapid.T) *C10Case {
 			cur = P{X: rapid.Int64Range(-scale, scale).Draw(t, "x"), Y: rapid.Int64Range(-scale, scale).Draw(t, "y")}
 			c.Line = append(c.Line, cur)
 		}
+	}
+	// companions: 0-2 short polylines of 1-3 points far to the right of the line; their strokes
+	// cannot interact with the line's, but per-group state of the offsetter can
+	for i, nb := 0, rapid.IntRange(0, 2).Draw(t, "nBefore"); i < nb; i++ {
+		base := P{X: 40*scale + int64(i)*10*scale, Y: 0}
+		m := rapid.IntRange(1, 3).Draw(t, "companionPts")
+		var cp Path
+		for j := 0; j < m; j++ {
+			cp = append(cp, P{X: base.X + rapid.Int64Range(0, scale/4+1).Draw(t, "cx"), Y: rapid.Int64Range(-scale/4-1, scale/4+1).Draw(t, "cy")})
+		}
+		c.Before = append(c.Before, cp)
 	}
 	c.End = rapid.SampledFrom([]c2.EndType{c2.Butt, c2.SquareET, c2.RoundET, c2.Joined}).Draw(t, "end")
 	c.Join = rapid.SampledFrom([]c2.JoinType{c2.Miter, c2.Square, c2.Bevel, c2.Round}).Draw(t, "join")
@@ -102,7 +114,8 @@ func dedupLine(p Path) Path {
 
 func judgeC10(c *C10Case, cx *Ctx) *Violation {
 	c2.VerifStartRecording()
-	sol := c2.InflatePaths64(Paths{c.Line}, c.Delta, c.Join, c.End, c2.WithMitterLimit(c.MiterLimit), c2.WithArcTolerance(c.ArcTol))
+	input := append(kit.ClonePaths(c.Before), c.Line)
+	sol := c2.InflatePaths64(input, c.Delta, c.Join, c.End, c2.WithMitterLimit(c.MiterLimit), c2.WithArcTolerance(c.ArcTol))
 	evs := c2.VerifStopRecording()
 	raw := rawOffsetPaths(evs)
 	classCache := 0
@@ -137,7 +150,7 @@ func judgeC10(c *C10Case, cx *Ctx) *Violation {
 	if end == c2.SquareET {
 		k = math.Max(k, math.Sqrt2)
 	}
-	labels := []string{"end:" + endName(c.End), "join:" + joinName(c.Join), pointsLabel(len(line))}
+	labels := []string{"end:" + endName(c.End), "join:" + joinName(c.Join), pointsLabel(len(line)), boolLabel("companions", len(c.Before) > 0)}
 
 	// single point: a square (side 2*delta) or a circle
 	if len(line) == 1 && c.End == c2.Joined {
@@ -227,6 +240,9 @@ func judgeC10(c *C10Case, cx *Ctx) *Violation {
 	nIn, nOut, excluded := 0, 0, 0
 	for _, q := range probes {
 		dist, seg, t := nearestOnLine(q, line, closed)
+		if len(c.Before) > 0 && dist > 3*(k*d+tol)+10 {
+			continue // companions live at least 40 extents away; only the line's surroundings are judged
+		}
 		w, on := kit.Wind(sol, q)
 		inside := w != 0 || on
 		if w != 0 && w != 1 && !on && kit.FarFrom(q, sol, true, band) {
